@@ -44,3 +44,30 @@ Proof.
   unfold keccak256. generalize (firstn 4 (absorb (S (length (kpad m) / rate)) (repeat 0 25) (kpad m))).
   intros l. induction l as [|x t IH]; cbn [flat_map]; [constructor|]. apply bytes_ok_app. split; [apply le_bytes_ok | exact IH].
 Qed.
+
+(* the fuel of the absorbing loop never decides: any amount above length/rate gives the same state, i.e. the loop
+   always ends because the input is exhausted (one 136-byte block per iteration), not because the fuel is *)
+Lemma absorb_fuel_irrelevant : forall f1 f2 st b,
+  (length b / rate < f1)%nat -> (length b / rate < f2)%nat -> absorb f1 st b = absorb f2 st b.
+Proof.
+  induction f1 as [|f1 IH]; intros f2 st b H1 H2; [exfalso; exact (Nat.nlt_0_r _ H1)|].
+  destruct f2 as [|f2]; [exfalso; exact (Nat.nlt_0_r _ H2)|].
+  destruct b as [|x t]; [reflexivity|].
+  cbn [absorb]. remember (x :: t) as b eqn:Eb.
+  assert (Hr : (0 < rate)%nat) by (unfold rate; lia).
+  destruct (Nat.lt_ge_cases (length b) rate) as [Hlt|Hge].
+  - (* last block: nothing left afterwards *)
+    assert (Hs : skipn rate b = []) by (apply skipn_all2; lia). rewrite Hs.
+    destruct f1, f2; reflexivity.
+  - assert (Hlen : length (skipn rate b) = (length b - rate)%nat) by apply skipn_length.
+    assert (Hdiv : (length b / rate = (length b - rate) / rate + 1)%nat).
+    { replace (length b) with ((length b - rate) + 1 * rate)%nat at 1 by lia. rewrite Nat.div_add by lia. reflexivity. }
+    apply IH; rewrite Hlen; lia.
+Qed.
+
+Theorem keccak256_fuel_never_decides m extra :
+  keccak256 m =
+  flat_map (le_bytes 8) (firstn 4 (absorb (S (length (kpad m) / rate) + extra) (repeat 0 25%nat) (kpad m))).
+Proof.
+  unfold keccak256. f_equal. f_equal. apply absorb_fuel_irrelevant; lia.
+Qed.
